@@ -303,6 +303,65 @@ def layer_histories(run, seed):
                         break
 
 
+def grad_histories(run, seed, tier):
+    """after ANY interleaving of backward / Tensor.zero_ / Module.zero_grad / Optimizer.zero_grad / Optimizer.step the .grad of every
+    parameter has exactly the parameter's shape and dtype, and the parameter keeps its dtype (all histories up to the stated length)"""
+    import itertools
+    Tensor, F, nn, NF = synapgrad_modules()
+    import synapgrad.optim.optimizers as O
+    from synapgrad.nn.modules import Parameter, Module
+    rng = np.random.RandomState(seed)
+    alphabet = ("bw", "bw_other_dtype", "zero_t", "zero_mod", "zero_opt", "step")
+    maxlen = 4 if tier == "quick" else 5
+    for kind in ("SGD", "Adam", "AdamW"):
+        for dt in (np.float32, np.float64):
+            other = np.float64 if dt == np.float32 else np.float32
+            for n in range(1, maxlen + 1):
+                for hist in itertools.product(alphabet, repeat=n):
+                    if not any(e.startswith("bw") for e in hist):
+                        continue
+                    w = Parameter(rng.rand(2, 3).astype(dt), requires_grad=True)
+                    b = Parameter(rng.rand(3).astype(dt), requires_grad=True)
+
+                    class M(Module):
+                        def __init__(s):
+                            super().__init__()
+                            s.w, s.b = w, b
+                    mod = M()
+                    opt = getattr(O, kind)([w, b], lr=0.01, **({"momentum": 0.9} if kind == "SGD" else {}))
+                    key = {"optimizer": kind, "dtype": np.dtype(dt).name, "history": list(hist)}
+                    for step, ev in enumerate(hist):
+                        try:
+                            if ev.startswith("bw"):
+                                xd = dt if ev == "bw" else other
+                                x = Tensor(rng.rand(4, 2).astype(xd))
+                                out = (x @ w + b).sum()
+                                out.backward()
+                            elif ev == "zero_t":
+                                w.zero_()
+                                b.zero_()
+                            elif ev == "zero_mod":
+                                mod.zero_grad()
+                            elif ev == "zero_opt":
+                                opt.zero_grad()
+                            else:
+                                opt.step()
+                        except Exception as e:
+                            run.violation("grad_history.completes", "event %d (%s) raised %s: %s" % (step, ev, type(e).__name__, e), key={**key, "step": step}, replay=key)
+                            break
+                        run.rt(("grad-history", kind, np.dtype(dt).name, hist, step))
+                        bad = [nm for nm, p_, sh in (("w", w, (2, 3)), ("b", b, (3,)))
+                               if p_.data.dtype != dt or p_.data.shape != sh or (p_._grad is not None and (p_._grad.dtype != dt or p_._grad.shape != sh))]
+                        if bad:
+                            p_ = w if bad[0] == "w" else b
+                            api = {"bw": "Tensor.backward", "bw_other_dtype": "Tensor.backward", "zero_t": "Tensor.zero_", "zero_mod": "Module.zero_grad", "zero_opt": "Optimizer.zero_grad",
+                                   "step": "Optimizer.step"}[ev]
+                            run.violation(api + ".grad_has_parameter_dtype_and_shape", "after %s the %s parameter %s has data %s%s and .grad %s%s" %
+                                          (list(hist[:step + 1]), np.dtype(dt).name, bad[0], p_.data.dtype, p_.data.shape, None if p_._grad is None else p_._grad.dtype,
+                                           None if p_._grad is None else p_._grad.shape), key={**key, "step": step, "event": ev}, replay=key)
+                            break
+
+
 def main(tier="quick", seed=0, procs=None, only=None):
     run = Run("C10", tier, seed, "exploration")
     run.assume("bounded stand-in: dtype/shape contracts are executed natively; NumPy's promotion rules are executed, not axiomatised",
@@ -338,6 +397,7 @@ def main(tier="quick", seed=0, procs=None, only=None):
         if only:
             run.extra["filtered_only"] = only
     guarded(run, "stateful layer histories", layer_histories, run, seed)
+    guarded(run, "gradient-buffer histories", grad_histories, run, seed, tier)
     run.rule = ("one evaluation = one clause (result_dtype | grad_shape | grad_dtype per leaf | root grad_shape/grad_dtype | backward_completes | float32_float64_agree) on one "
                 "(api form, pattern, operand kinds, operand dtype assignment, upstream dtype); all are distinct")
     run.explanation = ("dtype promotion is defined by NumPy and the Tensor constructor, so it is executed on the real functions over the complete finite lattice of dtype x operand kind x "
